@@ -67,6 +67,56 @@
 //@ closure map 1 optional
 |__cp1: (PayloadRef<'_>, &PayloadInfo)| -> (r: PayloadRef<'_>) ensures r == __cp1.0
 //@ prelude
+// ---- C18: the rendering of ONE item as a sequence of text fragments -------------------
+// The six format literals of DeltaStream::append_payload, pinned by the tag rule R2t computes
+// from their source text (an edited literal gets another tag and no longer matches). Their
+// reviewed shapes:
+//   T_ORIGIN     one complete JSON object   { "type": "routeOrigin", "asn", "prefix", "maxLength" }
+//   T_ROUTER_KEY one complete JSON object   { "type": "routerKey", "keyIdentifier", "asn", "keyInfo" }
+//   T_ASPA_HEAD  { "type": "aspa", "customerAsn": "..", "providerAsns": [      (opens object and array)
+//   T_PROV_FIRST "ASn"                                                          (one array element)
+//   T_PROV_NEXT  , "ASn"                                                        (separator + one element)
+//   T_ASPA_TAIL  ] }                                                            (closes array and object)
+pub spec const T_ORIGIN: u64 = 0x78c893f404a134fu64;
+pub spec const T_ROUTER_KEY: u64 = 0x70e21e577c51d45u64;
+pub spec const T_ASPA_HEAD: u64 = 0xfc677c3459dd664u64;
+pub spec const T_PROV_FIRST: u64 = 0xa7ef4e401fef544u64;
+pub spec const T_PROV_NEXT: u64 = 0xcdcaca296629dd4u64;
+pub spec const T_ASPA_TAIL: u64 = 0xd5db0401f97af17u64;
+
+// the elements of the providerAsns array for the first n providers: the first element
+// without, every further element with a leading separator - for n == 0 nothing at all,
+// so that the array reads `[` `]`
+pub open spec fn provider_frags(n: int) -> Seq<Frag>
+    decreases n
+{
+    if n <= 0 { Seq::empty() }
+    else if n == 1 { seq![Frag::Lit(T_PROV_FIRST)] }
+    else { provider_frags(n - 1).push(Frag::Lit(T_PROV_NEXT)) }
+}
+
+// the fragments of one item: one object; an ASPA is head `[` elements `]` tail with exactly
+// one element per provider
+pub open spec fn item_frags(p: PayloadRef) -> Seq<Frag> {
+    match p {
+        PayloadRef::Origin(_) => seq![Frag::Lit(T_ORIGIN)],
+        PayloadRef::RouterKey(_) => seq![Frag::Lit(T_ROUTER_KEY)],
+        PayloadRef::Aspa(a) => seq![Frag::Lit(T_ASPA_HEAD)] + provider_frags(a.providers.asns_spec().len() as int)
+                                + seq![Frag::Lit(T_ASPA_TAIL)],
+    }
+}
+
+// an item in a list: a comma unless it is the first, then the item
+pub open spec fn listed_item_frags(p: PayloadRef, first: bool) -> Seq<Frag> {
+    (if first { Seq::<Frag>::empty() } else { seq![Frag::Comma] }) + item_frags(p)
+}
+
+// ASSUMED (tokenisation): a buffer extended by exactly the fragments of one listed item is
+// extended by exactly one Item token
+pub broadcast axiom fn axiom_item_token(b1: Seq<u8>, b2: Seq<u8>, p: PayloadRef, first: bool)
+    ensures frags(b2) == frags(b1) + listed_item_frags(p, first)
+        ==> #[trigger] trace(b2) == #[trigger] trace(b1).push(Tok::Item(p, first));
+
 // The leaf appenders of DeltaStream (ASSUMED contracts; bodies are format strings).
 impl DeltaStream {
     // ASSUMED additionally: the rendered header (fixed text, three numbers, a date) is
@@ -80,11 +130,6 @@ impl DeltaStream {
     #[verifier::external_body]
     fn append_separator(vec: &mut Vec<u8>)
         ensures trace(final(vec)@) == trace(old(vec)@).push(Tok::Sep),
-    { unimplemented!() }
-
-    #[verifier::external_body]
-    fn append_payload(vec: &mut Vec<u8>, payload: PayloadRef, first: bool)
-        ensures trace(final(vec)@) == trace(old(vec)@).push(Tok::Item(payload, first)),
     { unimplemented!() }
 
     #[verifier::external_body]
@@ -157,6 +202,32 @@ impl SnapshotStream {
             decreases snap_len(s0) - iter.pos(),
 //@ loopentry 1
             broadcast use axiom_trace_empty, axiom_bytes_of, lemma_push_concat;
+//@ fn DeltaStream::append_payload
+//@ spec
+    ensures
+        // C18: the text appended for one item is, for every payload and every number of
+        // providers (zero included), exactly: separator unless first, then the item's object;
+        // an ASPA's providerAsns array has one element per provider, bracket opened and closed once
+        frags(final(vec)@) == frags(old(vec)@) + listed_item_frags(payload, first),
+        // C18: hence exactly one item token
+        trace(final(vec)@) == trace(old(vec)@).push(Tok::Item(payload, first)),
+//@ entry
+        broadcast use axiom_frags_comma, axiom_item_token, lemma_push_concat;
+        let ghost f0 = frags(vec@);
+//@ beforeloop 1
+                let ghost f1 = frags(vec@);
+                let ghost provs = aspa.providers.asns_spec();
+//@ loopvar 1 it
+//@ loop 1
+                    invariant
+                        it.iter.obeys_prophetic_iter_laws(),
+                        it.seq() == provs,
+                        0 <= it.index@ <= provs.len(),
+                        first == (it.index@ == 0),
+                        // C18: one array element per provider so far
+                        frags(vec@) == f1 + provider_frags(it.index@),
+//@ loopentry 1
+                    broadcast use lemma_push_concat;
 //@ fn DeltaStream::next_announce
 //@ spec
     requires
